@@ -1,7 +1,8 @@
 #!/usr/bin/env python3
 # Regenerates the table of §8 of DESIGN.md from seeded/*/meta.json and seeded/*/result-quick.txt.
 import json,os,re,glob
-missed={'C04-s1','C05-s1','C07-s1','C10-s1','C13-s1','C09-s2','C10-s2','C14-s2','C04-s3','C07-s3','C12-s3','C16-s3','C17-s3','C03-s4','C07-s4','C09-s4','C11-s4','C14-s4','C03-s5','C05-s5','C07-s5','C10-s5','C11-s5','C13-s5','C16-s5','C17-s5'}
+missed={'C04-s1','C05-s1','C07-s1','C10-s1','C13-s1','C09-s2','C10-s2','C14-s2','C04-s3','C07-s3','C12-s3','C16-s3','C17-s3','C03-s4','C07-s4','C09-s4','C11-s4','C14-s4','C03-s5','C05-s5','C07-s5','C10-s5','C11-s5','C13-s5','C16-s5','C17-s5',
+ 'C02-s6','C03-s6','C04-s6','C05-s6','C06-s6','C07-s6','C09-s6','C10-s6','C11-s6','C12-s6','C14-s6','C15-s6','C16-s6','C17-s6'}
 def short(t,n):
     t=' '.join(t.split())
     t=re.sub(r'/tmp/wt/C\d\d[bc]?/','',t)
@@ -21,6 +22,7 @@ for d in sorted(glob.glob('/verif/seeded/C*-s*')):
     files=', '.join(os.path.basename(f) for f in m.get('files_changed',[]))
     c=', '.join(caught)+(' *(after strengthening)*' if sid in missed else '')
     if held: c+='; silent: '+', '.join(held)
+    if os.path.exists(d+'/NEUTRALISED.txt'): c='— no longer breaks the property since a later repair of /repo made the deleted re-validation redundant (caught by C06 until then)'
     rows.append('| %s | `%s` | %s | %s | %s |'%(sid,files,short(m.get('summary',''),170).replace('|','/'),short(m.get('needs',''),120).replace('|','/'),c))
 table='| seed | file | change | needs | caught at quick by |\n|------|------|--------|-------|--------------------|\n'+'\n'.join(rows)+'\n'
 p='/verif/DESIGN.md'
